@@ -26,7 +26,7 @@ MANIFEST = {
     'technique': 'Lean 4 joint invariant over the kernel stack machine and the bracket matcher; correspondence check through the grammar model; reader oracle',
 }
 
-NAMES = ['a', 'b', 'c1', 't_2', 'x-y', '12', 'B', 'e5', 'inf', 'i', 'M', '_']
+NAMES = ['a', 'b', 'c1', 't_2', 'x-y', '12', 'B', 'e5', 'inf', 'i', 'M', '_', 't-', '-h', '-', 'x--2', '-_-']
 
 
 def run(res, proof):
@@ -118,7 +118,7 @@ def run(res, proof):
     objectio.clear_io_objects()
     clear_singletons(ComplexS); clear_singletons(DomainS)
     res.rule = ('every well-formed structure up to %d positions / 3 strands (quick: sampled above 5 characters) with a random '
-                'domain-level-complementary labelling over 12 PIL-legal base names (digits-only, e5, inf, _, x-y ... starred or not), '
+                'domain-level-complementary labelling over 17 PIL-legal base names (digits-only, e5, inf, _, x-y, leading / trailing / only dashes ... starred or not), '
                 'every rotation; random structures up to 120 positions; random (not necessarily complementary) kernel patterns for the '
                 'translation correspondence; non-trivial = at least one pair; distinct by (sequence, structure)' % L)
     try:
